@@ -4,6 +4,7 @@
 //   --exhaustive --level L --out part.json --faildir DIR
 #include <rapidcheck.h>
 #include <fcntl.h>
+#include <signal.h>
 #include <unistd.h>
 
 #include <chrono>
@@ -106,9 +107,23 @@ void write_part(const std::string& path, const Config& cfg, const Stats& st,
   f << "\n}\n";
 }
 
+// per-case watchdog: a case that runs longer than this is reported as a hang
+// (exit code 5, the pending tape stays on disk); a hang is "inconclusive",
+// never a violation by itself
+int g_case_timeout = 300;
+void OnAlarm(int) {
+  static const char msg[] = "HANG: case exceeded the per-case time limit\nCASE(at hang) ";
+  ssize_t w = write(1, msg, sizeof msg - 1);
+  if (g_current) { std::string dsc = g_current->desc.str(); w = write(1, dsc.data(), dsc.size()); }
+  w = write(1, "\n", 1);
+  (void)w;
+  _exit(5);
+}
+
 void run_body(const Body& body, const uint8_t* d, size_t n, Outcome& o) {
   Tape t(d, n);
   g_current = &o;
+  alarm(g_case_timeout);
   try {
     body(t, o);
   } catch (const std::exception& e) {
@@ -151,6 +166,8 @@ int run_main(int argc, char** argv, const Config& cfg, Body body, Enumerator enu
     else if (a == "--shrink-seconds") shrink_seconds = atof(next().c_str());
   }
   if (__sanitizer_set_death_callback) __sanitizer_set_death_callback(OnSanitizerDeath);
+  signal(SIGALRM, OnAlarm);
+  if (getenv("VERIF_CASE_TIMEOUT")) g_case_timeout = atoi(getenv("VERIF_CASE_TIMEOUT"));
   auto t0 = std::chrono::steady_clock::now();
   auto elapsed = [&]() { return std::chrono::duration<double>(std::chrono::steady_clock::now() - t0).count(); };
 
